@@ -493,6 +493,10 @@ def _annotate_ast_startpos(
         # the beginning of the line.
         # In Python 3, the col_offset for the with is 0 again.
         aast_node.startpos = startpos
+        # Last line of the node, in the line numbering of ``text``.
+        end_lineno = getattr(aast_node, "end_lineno", None)
+        if end_lineno is not None:
+            aast_node.last_lineno = text.startpos.lineno + end_lineno - 1
         return False
 
     assert aast_node.col_offset == -1
@@ -593,6 +597,10 @@ def _split_code_lines(ast_nodes, text):
         else:
             endpos = next_startpos
             assert endpos <= text.endpos
+            # Lines up to the node's last line are never standalone comments,
+            # whatever they look like (e.g. the tail of a multi-line string).
+            last_node_lineno = max(
+                startpos.lineno, getattr(node, "last_lineno", startpos.lineno))
             # We don't have an endpos yet; what we do have is the next node's
             # startpos (or the position at the end of the text).  Start there
             # and work backward.
@@ -601,7 +609,8 @@ def _split_code_lines(ast_nodes, text):
                     # There could be a comment on the last line and no
                     # trailing newline.
                     # TODO: do this in a more principled way.
-                    if _is_comment_or_blank(text[endpos.lineno]):
+                    if (endpos.lineno > last_node_lineno and
+                        _is_comment_or_blank(text[endpos.lineno])):
                         assert startpos.lineno < endpos.lineno
                         if not text[endpos.lineno-1].endswith("\\"):
                             endpos = FilePos(endpos.lineno,1)
@@ -615,10 +624,11 @@ def _split_code_lines(ast_nodes, text):
                     # _is_comment_or_blank(...)'.]
                     pass
             if endpos.colno == 1:
-                while (endpos.lineno-1 > startpos.lineno and
+                while (endpos.lineno-1 > last_node_lineno and
                        _is_comment_or_blank(text[endpos.lineno-1]) and
                        (not text[endpos.lineno-2].endswith("\\") or
-                        _is_comment_or_blank(text[endpos.lineno-2]))):
+                        (endpos.lineno-2 > last_node_lineno and
+                         _is_comment_or_blank(text[endpos.lineno-2])))):
                     endpos = FilePos(endpos.lineno-1, 1)
         assert startpos < endpos <= next_startpos
         yield ([node], text[startpos:endpos])
